@@ -43,6 +43,119 @@ def worstEnv (fx : List (Nat × List RegOp)) : Env :=
   { pubRaises := fun _ _ _ => true, privRaises := fun _ _ _ _ => true, relayRaises := fun _ _ => true,
     effects := fun l _ => ((fx.find? (·.1 == l)).map (·.2)).getD [] }
 
+/-! branch tags: which branch of the model's definitions an input exercises, computed with the model's own guard functions
+    (cellFromBin, cryptoIsCell, deliverCond, lookupPrefix, NetS.*).  The harness counts them and refuses to pass a run in which
+    a branch class listed in the design stays at zero. -/
+
+def tagsLookup (n : NetS) (a : Bytes) : List String :=
+  let evict := if n.cache.length ≥ n.cap && !(n.cache.any (·.1 == a)) then ["lk:cache-full"] else []
+  evict ++ (match (n.cache.find? (·.1 == a)).map (·.2) with
+    | some oid =>
+      match n.indexGet (n.keyOf oid) with
+      | some o' => if o' == oid && n.hasAddr oid a then ["lk:cache-hit-valid"]
+                   else if o' != oid then ["lk:cache-stale-other-object"] else ["lk:cache-stale-address"]
+      | none => ["lk:cache-stale-key-gone"]
+    | none => []) ++
+  (match (n.cache.find? (·.1 == a)).map (·.2) with
+    | some oid => if (n.indexGet (n.keyOf oid)) == some oid && n.hasAddr oid a then [] else
+        [if (n.verified.filter (n.hasAddr · a)).length > 1 then "lk:scan-several" else
+         if (n.verified.any (n.hasAddr · a)) then "lk:scan-found" else "lk:scan-none"]
+    | none => [if (n.verified.filter (n.hasAddr · a)).length > 1 then "lk:scan-several" else
+               if (n.verified.any (n.hasAddr · a)) then "lk:scan-found" else "lk:scan-none"])
+
+def tagsFromCircuit (o : Overlay) (x : Bytes) : List String :=
+  if o.pfx != x.take Gen.privTake || x.length < Gen.privMinLen then ["fc:gate-closed"]
+  else match x[Gen.privIdx]? with
+    | none => ["fc:index-error"]
+    | some m => if o.priv.contains m.toNat then ["fc:handler"] else ["fc:no-handler"]
+
+def tagsOnCell (o : Overlay) (data : Bytes) : List String :=
+  match cellFromBin data with
+  | .error _ => ["oncell:header-short"]
+  | .ok c =>
+    if c.plaintext then
+      match c.message.head? with
+      | none => ["oncell:plaintext-empty"]
+      | some m0 => if Gen.noCryptoPackets.contains m0.toNat then "oncell:plaintext-create" :: tagsFromCircuit o (cellUnwrap o.pfx c)
+                   else ["oncell:plaintext-not-create"]
+    else "oncell:encrypted-flag" :: tagsFromCircuit o (cellUnwrap o.pfx c)
+
+def tagsCommunity (o : Overlay) (data : Bytes) : List String :=
+  if o.pfx != data.take Gen.pubTake then ["com:foreign-prefix"]
+  else if data.length < Gen.pubMinLen then ["com:prefix-only"]
+  else match data[Gen.pubIdx]? with
+    | none => ["com:index-error"]
+    | some m =>
+      if o.pub.contains m.toNat then
+        (if o.tunnel && m.toNat == Gen.cellMsgId then "com:on_cell" :: tagsOnCell o data else ["com:handler"])
+      else ["com:no-handler"]
+
+def tagsTunnelBranch (c : Crypto) (data : Bytes) : List String :=
+  match c.tunnel with
+  | none => ["cry:no-tunnel-community"]
+  | some (_, o) => tagsCommunity o data
+
+def tagsCell (dec : Nat → Bytes → Dec) (c : Crypto) (data : Bytes) : List String :=
+  match cellFromBin data with
+  | .error _ => ["cell:header-short"]
+  | .ok cell =>
+    if c.relays.contains cell.cid then ["cell:relay"]
+    else
+      let known := c.circuits.contains cell.cid || c.exits.contains cell.cid
+      if !known && !cell.plaintext then ["cell:unknown-circuit-encrypted"]
+      else if c.circuits.contains cell.cid && !c.exits.contains cell.cid && c.hopless.contains cell.cid && !cell.plaintext
+        then ["cell:circuit-without-hops"]
+      else
+        let r : Dec := if cell.plaintext || !known then .ok cell.message else dec cell.cid cell.message
+        let how := if cell.plaintext then "cell:plaintext" else if c.exits.contains cell.cid then "cell:exit-decrypt" else "cell:circuit-decrypt"
+        how :: (match r with
+        | .fail => ["cell:decrypt-failed"]
+        | .raise => ["cell:decrypt-raised"]
+        | .ok m =>
+          match m.head? with
+          | none => ["cell:empty-message"]
+          | some m0 =>
+            if (!cell.relayEarly && m0.toNat == 4) || c.maxRelayEarly == 0 then ["cell:relay-early-rule"]
+            else if cell.plaintext && !Gen.noCryptoPackets.contains m0.toNat then ["cell:plaintext-not-create"]
+            else "cell:to-tunnel-community" :: tagsTunnelBranch c (cellToBin c.pfx { cell with message := m }))
+
+def tagsListener (dec : Nat → Bytes → Dec) (t : List (Nat × Listener)) (l : Nat) (data : Bytes) : List String :=
+  match lookupListener t l with
+  | some (.community o) => tagsCommunity o data
+  | some (.crypto c) =>
+    if c.pfx.isPrefixOf data then
+      match cryptoIsCell data with
+      | .error _ => ["cry:index-error"]
+      | .ok true => "cry:cell" :: tagsCell dec c data
+      | .ok false => (if data.length ≤ Gen.cryptoIdx then "cry:prefix-only" else "cry:not-a-cell") :: tagsTunnelBranch c data
+    else "cry:foreign-prefix" :: tagsTunnelBranch c data
+  | some (.stats tracked) =>
+    if !tracked.contains (data.take Gen.statTake) then ["stats:untracked"]
+    else if data.length < Gen.statMinLen then ["stats:prefix-only"] else ["stats:counted"]
+  | some .inert => ["inert"]
+  | none => ["unknown-listener"]
+
+def tagsOp (key : Option Bytes) (attached : Bool) : RegOp → String
+  | .add _ => if attached then "fx:add-seen-by-running-loop" else "fx:add-after-detach"
+  | .addp _ q => if key == some q then "fx:addp-iterated-prefix" else "fx:addp-other-prefix"
+  | .rm _ => "fx:rm"
+  | .setOpen b => if b then "fx:open" else "fx:close"
+
+def tagsNotify (st : St) (dec : Nat → Bytes → Dec) (src data : Bytes) : List String :=
+  let r := st.reg
+  let key := iterKey r data
+  let head := [if key.isSome then "iter:prefix-list" else "iter:global-list",
+               if r.isOpen then "ep:open" else "ep:closed"]
+  let per := (recipients r data).flatMap fun l =>
+    if !r.isOpen then ["deliver:closed"]
+    else if !(deliverCond r l data) then ["deliver:no-longer-registered"]
+    else
+      (if key.isSome then "deliver:prefix-registered" else "deliver:global") ::
+      (tagsListener dec r.table l data ++
+       (((st.fx.find? (·.1 == l)).map (·.2)).getD []).map (tagsOp key true))
+  let lk := if per.any (fun t => t.startsWith "com:" ) then tagsLookup st.net src else []
+  head ++ per ++ lk
+
 def regStep (r : Registry) (toks : List String) : Registry × String :=
   match toks with
   | ["ov", lid, pfx, pub, priv, tun] =>
@@ -192,7 +305,7 @@ def step (st : St) (toks : List String) : St × String :=
     match Proto.ofHex? src, Proto.ofHex? hex, parseDec dec with
     | some a, some d, some f =>
       let r := notify (worstEnv st.fx) f 100000 st.reg st.net a d
-      ({ st with reg := r.2.reg, net := r.2.net }, outStr r.1)
+      ({ st with reg := r.2.reg, net := r.2.net }, outStr r.1 ++ " | " ++ ",".intercalate (tagsNotify st f a d))
     | _, _, _ => (st, "bad-op")
   | _ =>
     let (r', reply) := regStep st.reg toks
